@@ -6,7 +6,8 @@
                              r = P:<hex> | A:<hex> | E | panic
      u <hex|->               utf8_valid: "1" | "0"
      h <uid> <0|1> <script>  handshake; script = steps separated by ';', first = greeting, each step
-                             "k" or "c" (keeps open / closes) followed by ",<hex chunk>"*
+                             "k", "l" or "c" (keeps open / keeps open, lockstep / closes) followed by ",<chunk>"*;
+                             chunk = "<hex>" | "<hh>*<n>" joined by '+', optionally "/<piece size>"
                              prints "<res> S:<hex sent> R:<hex received> U:<hex unread> L:<hex reply1>/<hex reply2>"
      x <uid>                 get_uid_as_hex: hex of the result or "panic" *)
 open Gen_model
@@ -28,10 +29,29 @@ let addr_res = function
   | Err -> "E"
   | _ -> "panic"
 
+(* chunk = segments joined by '+': "<hex>" or "<hh>*<n>" (a byte repeated n times); "<chunk>/<s>" delivers the
+   chunk in pieces of s bytes *)
+let bytes_of_seg seg =
+  match String.index_opt seg '*' with
+  | Some i -> let b = n_of_int (int_of_string ("0x" ^ String.sub seg 0 i)) in
+              let n = int_of_string (String.sub seg (i + 1) (String.length seg - i - 1)) in
+              List.init n (fun _ -> b)
+  | None -> list_of_hex seg
+let rec take n l = if n = 0 then [] else match l with [] -> [] | x :: r -> x :: take (n - 1) r
+let rec drop n l = if n = 0 then l else match l with [] -> [] | _ :: r -> drop (n - 1) r
+let rec split_every s l = if l = [] then [] else take s l :: split_every s (drop s l)
+let chunks_of_token tok =
+  let body, piece = match String.index_opt tok '/' with
+    | Some i -> String.sub tok 0 i, Some (int_of_string (String.sub tok (i + 1) (String.length tok - i - 1)))
+    | None -> tok, None in
+  let bytes = List.concat (List.map bytes_of_seg (String.split_on_char '+' body)) in
+  match piece with Some s -> split_every s bytes | None -> [bytes]
+(* step tags: k keeps the socket open, c closes, l = k with every chunk delivered as its own read (the model
+   always reads chunk by chunk) *)
 let parse_step s =
   match String.split_on_char ',' s with
   | [] -> { chunks = []; closes = false }
-  | tag :: cs -> { chunks = List.map list_of_hex cs; closes = (tag = "c") }
+  | tag :: cs -> { chunks = List.concat (List.map chunks_of_token cs); closes = (tag = "c") }
 
 let res_name = function
   | COk -> "ok" | CAuthFailed -> "authfailed" | CFdFailed -> "fdfailed" | CErr -> "err"
